@@ -48,6 +48,12 @@ pub struct Script {
     /// Run the call script only during the first N calls of a thread (0 = always): lazy initialisation / warm-up.
     pub call_only_first: u64,
     pub call_free: bool,
+    /// Pre-filled stash (filled by the main thread before the run): `stash_n` blocks of `stash_size`
+    /// bytes; every call (`stash_where` 0), generation (1) or input drop (2) frees one block and
+    /// allocates nothing — memory released by a thread that did not allocate it.
+    pub stash_n: u64,
+    pub stash_size: u64,
+    pub stash_where: u64,
     pub drop_alloc_n: u64,
     pub drop_alloc_size: u64,
     pub count_alloc_n: u64,
@@ -86,6 +92,9 @@ impl Script {
             call_var: c.u64("cavar", 0),
             call_only_first: c.u64("caonly", 0),
             call_free: c.u64("cafree", 1) != 0,
+            stash_n: c.u64("stash", 0),
+            stash_size: c.u64("stashsz", 64),
+            stash_where: c.u64("stashw", 0),
             drop_alloc_n: c.u64("dan", 0),
             drop_alloc_size: c.u64("dasz", 16),
             count_alloc_n: c.u64("can", 0),
@@ -234,6 +243,57 @@ fn free_row(row: usize) {
     }
 }
 
+const STASH_CAP: usize = 8192;
+static STASH: [AtomicPtr<u8>; STASH_CAP] = [const { AtomicPtr::new(std::ptr::null_mut()) }; STASH_CAP];
+static STASH_TOP: AtomicU64 = AtomicU64::new(0);
+static STASH_SIZE: AtomicU64 = AtomicU64::new(0);
+
+/// Fills the stash (main thread, before the run starts).
+pub fn prefill_stash() {
+    let s = script();
+    let n = (s.stash_n as usize).min(if cfg!(miri) { 128 } else { STASH_CAP });
+    let size = s.stash_size.max(1);
+    STASH_SIZE.store(size, Relaxed);
+    for slot in STASH.iter().take(n) {
+        let p = unsafe { alloc(Layout::from_size_align(size as usize, 8).unwrap()) };
+        assert!(!p.is_null());
+        slot.store(p, Relaxed);
+    }
+    STASH_TOP.store(n as u64, SeqCst);
+}
+
+/// Frees one stashed block on the calling thread, if any is left; allocates nothing.
+fn stash_pop(place: u64) {
+    let s = script();
+    if s.stash_n == 0 || s.stash_where != place {
+        return;
+    }
+    let mut top = STASH_TOP.load(Relaxed);
+    while top > 0 {
+        match STASH_TOP.compare_exchange_weak(top, top - 1, AcqRel, Relaxed) {
+            Ok(_) => {
+                let p = STASH[(top - 1) as usize].swap(std::ptr::null_mut(), Relaxed);
+                if !p.is_null() {
+                    unsafe { dealloc(p, Layout::from_size_align(STASH_SIZE.load(Relaxed) as usize, 8).unwrap()) };
+                }
+                return;
+            }
+            Err(t) => top = t,
+        }
+    }
+}
+
+fn free_stash() {
+    let n = STASH_TOP.swap(0, SeqCst) as usize;
+    let size = STASH_SIZE.load(Relaxed) as usize;
+    for slot in STASH.iter().take(n.min(STASH_CAP)) {
+        let p = slot.swap(std::ptr::null_mut(), Relaxed);
+        if !p.is_null() {
+            unsafe { dealloc(p, Layout::from_size_align(size, 8).unwrap()) };
+        }
+    }
+}
+
 fn free_pending() {
     let k = evlog::kidx() as usize;
     if k < ROWS {
@@ -246,6 +306,7 @@ pub fn end_of_run_cleanup() {
     for row in 0..ROWS {
         free_row(row);
     }
+    free_stash();
 }
 
 fn churn(n: u64, size: u64) {
@@ -358,6 +419,7 @@ fn drop_in_hook(id: u64) {
     evlog::log(evlog::DROP_IN, id, ord, 0);
     let s = script();
     skew(PH_DROP_IN);
+    stash_pop(2);
     churn(s.drop_alloc_n, s.drop_alloc_size);
     clock::charge(s.drop_in_cost);
     if !std::thread::panicking() {
@@ -436,6 +498,7 @@ pub fn gen<I: In>() -> I {
     maybe_panic(PH_GEN, ord);
     skew(PH_GEN);
     free_pending();
+    stash_pop(1);
     let s = script();
     churn(s.gen_alloc_n, s.gen_alloc_size);
     clock::charge(s.gen_cost);
@@ -491,6 +554,7 @@ fn drop_out_hook(id: u64, from: u64) {
     evlog::log(evlog::DROP_OUT, id, from, ord);
     let s = script();
     skew(PH_DROP_OUT);
+    stash_pop(2);
     churn(s.drop_alloc_n, s.drop_alloc_size);
     clock::charge(s.drop_out_cost);
     if !std::thread::panicking() {
@@ -559,6 +623,7 @@ fn call_prologue(input_id: u64) {
     maybe_panic(PH_CALL, ord);
     skew(PH_CALL);
     call_allocs(ord);
+    stash_pop(0);
     let s = script();
     clock::charge(s.call_cost(ord, evlog::kidx() as u64));
 }
